@@ -7,3 +7,21 @@ package websocket
 
 // VerifMaskGo exposes the portable masking implementation.
 func VerifMaskGo(b []byte, key uint32) uint32 { return maskGo(b, key) }
+
+// VerifCopts exposes the negotiated permessage-deflate parameters of a connection
+// ("none" when compression was not negotiated, else the two no_context_takeover flags as bits).
+func VerifCopts(c *Conn) string {
+	if c.copts == nil {
+		return "none"
+	}
+	b := func(x bool) string {
+		if x {
+			return "1"
+		}
+		return "0"
+	}
+	return b(c.copts.clientNoContextTakeover) + b(c.copts.serverNoContextTakeover)
+}
+
+// VerifFlateThreshold exposes the effective compression threshold of a connection.
+func VerifFlateThreshold(c *Conn) int { return c.flateThreshold }
